@@ -53,6 +53,7 @@ def plan(tier, seed):
     meta = dict(
         rule=RULE,
         require=['history_view_checks', 'long_lived_handle_checks',
+                 'dynamic_histories',
                  'gc_freed_nodes', 'traversals', 'descendants_checks', 'nx_graphs',
                  'dot_files', 'dot_roots_evaluated', 'nx_roots_evaluated'],
         assumptions=['truth-table model in vf/oracle.py',
@@ -447,12 +448,21 @@ def history(ctx, spec):
         reg.install()
     try:
         names = [f'x{i}' for i in range(spec['n'])]
-        w = World(ctx, rng, names, kind=kind, strict=True, registry=reg)
+        import dd.bdd as _bm
+        dynamic = kind == 'autoref' and spec['sub'] % 2 == 0
+        starts0 = _bm.REORDER_STARTS
+        if dynamic:
+            _bm.REORDER_STARTS = 4
+            ctx.counters['dynamic_histories'] += 1
+        w = World(ctx, rng, names, kind=kind, strict=True, registry=reg,
+                  reordering=dynamic)
         menu = dict(build=6, apply=8, ite=2, quantify=2, let_rename=1,
                     drop=7, gc=4, sift=1, reorder_to=2,
                     swap=3 if kind == 'bdd' else 0,
                     declare=1 if kind == 'bdd' else 0,
                     undeclare=1 if kind == 'bdd' else 0, **{'not': 1})
+        if dynamic:
+            menu.update(rearm=3, fop=3, traverse=2)
         for k in range(spec['steps']):
             ok, res = ctx.guard(w.site, w.step, menu, case=dict(
                 spec=spec, step=k,
@@ -496,6 +506,7 @@ def history(ctx, spec):
                         last_steps=[list(map(str, d)) for d in w.log[-5:]]))
         ctx.guard('shutdown', w.finish)
     finally:
+        _bm.REORDER_STARTS = starts0
         if reg:
             reg.uninstall()
 
